@@ -364,6 +364,8 @@ pub fn eval_angle(src: &str) -> Result<f64, String> {
 pub fn parse_qasm_lite(txt: &str) -> Result<Circ, String> {
     let mut n: Option<usize> = None;
     let mut gates = vec![];
+    // line comments are not statements (layout and comments are the printer's business)
+    let txt: String = txt.lines().map(|l| l.split("//").next().unwrap_or("")).collect::<Vec<_>>().join("\n");
     for stmt in txt.split(';') {
         let s = stmt.trim();
         if s.is_empty() || s.starts_with("OPENQASM") || s.starts_with("include") {
